@@ -58,6 +58,7 @@ func checkC10(p *Program, r *Report) {
 	c10GuardSiblings(p, r, m, sums)
 	c10FailureRaises(p, r, m)
 	c10ContainerConverters(p, r, m, "C10.R12")
+	accessorKindAgreement(p, r, m, "C10.R13")
 }
 
 func c10Sinks(p *Program, r *Report, m *vmModel, sums *typeSummaries) {
@@ -1291,4 +1292,89 @@ func c10ContainerConverters(p *Program, r *Report, m *vmModel, rule string) {
 		}
 	}
 	r.Floor(rule, n, 2)
+}
+
+// accessorKindAgreement (C10.R13, C05.R8): reflect's typed accessors panic on the wrong kind (Int on an unsigned value, Uint on a
+// signed one, Float on an integer). Where a function tests the kind of a value and then reads it, the accessor fits every kind
+// the tests let through: evaluated outright for each of reflect's kinds (the tests `v.Kind() == K` of that value decided, all
+// other conditions both ways).
+func accessorKindAgreement(p *Program, r *Report, m *vmModel, rule string) {
+	allowed := map[string]map[int64]bool{
+		"Int":   {2: true, 3: true, 4: true, 5: true, 6: true},
+		"Uint":  {7: true, 8: true, 9: true, 10: true, 11: true, 12: true},
+		"Float": {13: true, 14: true},
+		"Bool":  {1: true},
+	}
+	n := 0
+	fns := m.fns
+	if csp := p.SSAPkg("core"); csp != nil {
+		fns = append(append([]*ssa.Function{}, fns...), SrcFuncs(csp)...)
+	}
+	for _, fn := range fns {
+		if len(fn.Blocks) == 0 {
+			continue
+		}
+		// kind atoms per subject value
+		atoms := map[ssa.Value][]*ssa.BinOp{}
+		for _, b := range fn.Blocks {
+			for _, in := range b.Instrs {
+				bo, ok := in.(*ssa.BinOp)
+				if !ok || (bo.Op != token.EQL && bo.Op != token.NEQ) {
+					continue
+				}
+				kc, ok := bo.X.(*ssa.Call)
+				if !ok || reflectMethod(kc) != "Kind" {
+					continue
+				}
+				if _, ok := bo.Y.(*ssa.Const); !ok {
+					continue
+				}
+				atoms[kc.Call.Args[0]] = append(atoms[kc.Call.Args[0]], bo)
+			}
+		}
+		if len(atoms) == 0 {
+			continue
+		}
+		k := 0
+		for _, b := range fn.Blocks {
+			for _, in := range b.Instrs {
+				c, ok := in.(*ssa.Call)
+				if !ok {
+					continue
+				}
+				acc := reflectMethod(c)
+				al, ok := allowed[acc]
+				if !ok {
+					continue
+				}
+				subj := c.Call.Args[0]
+				as := atoms[subj]
+				if len(as) == 0 {
+					continue
+				}
+				k++
+				n++
+				var bad []string
+				for K := int64(0); K <= 26; K++ {
+					if al[K] {
+						continue
+					}
+					world := map[ssa.Value]bool{}
+					for _, a := range as {
+						eq := a.Y.(*ssa.Const).Int64() == K
+						if a.Op == token.NEQ {
+							eq = !eq
+						}
+						world[a] = eq
+					}
+					if worldReach(fn, world)[b] {
+						bad = append(bad, kindName(K))
+					}
+				}
+				r.Check(len(bad) == 0, rule, fmt.Sprintf("%s|%s() #%d only on kinds it accepts", funcName(fn), acc, k), p.Pos(c.Pos()), "unreachable for every other kind the function's kind tests let through",
+					fmt.Sprintf("reflect.Value.%s() can be reached with a value of kind %v, on which it panics: an operand of that kind (an element of a []byte or []uint32, a host uint) fails with a reflect error instead of being read", acc, bad))
+			}
+		}
+	}
+	r.Floor(rule, n, 12)
 }
